@@ -800,6 +800,7 @@ func errClassOA(err error) string {
 		s = s[:i]
 	}
 	s = regexp.MustCompile(`"[^"]*"`).ReplaceAllString(s, "Q")
+	s = regexp.MustCompile(`\[[^\]]*\]`).ReplaceAllString(s, "[L]") // lists of names (kin prints them in map order)
 	s = regexp.MustCompile(`/[A-Za-z0-9_{}*/.-]+`).ReplaceAllString(s, "P")
 	s = regexp.MustCompile(`\b[Mm]\d+\b`).ReplaceAllString(s, "mN")
 	s = regexp.MustCompile(`\d+`).ReplaceAllString(s, "N")
